@@ -57,6 +57,13 @@ CHECKS = {
    text="On every grid instance each averaging function is compared face by face with loop-based width-weighted means; bounds, constants, harmonic<=geometric<=arithmetic, exactness of linearMean on linear fields, the donor/boundary/zero rules of upwindMean with one face at a time in {+1,-1,0}, locality over all (cell, face) pairs and agreement of the 1-D, 2-D and 3-D variants on all lifted line fields over {0,1,2,4} (zeros included). Exhaustive within the bounds.",
    note="Reference weights taken from the library docstrings; zero handling follows the 1-D convention (zero in either adjacent cell gives 0).",
    ref="DESIGN.md 4/C11"),
+
+ "C15": dict(
+   engine="C-histbfs",
+   technique="exhaustive enumeration of all call sequences up to length 2 (thorough 3) over the full menu of 34 public builders/solvers on the real objects, with frozen inputs, byte snapshots and differential comparison against a fresh world",
+   text="Every ordered sequence of public builder/solver calls up to the length bound is executed on 9 classes x 2 shapes; at every call the byte snapshot of everything reachable from the inputs (mesh, coefficient variables, BCs incl. dirty bits, cached BC terms, prebuilt terms) must be unchanged, the inputs are made read-only so an in-place write raises, the result must be bit-identical to the same call in a fresh world (catches hidden module-level/cached state for all ordered pairs) and must not alias mesh storage; reused terms across solves equal rebuilt terms. States (sequence prefixes) and transitions (calls) are reported.",
+   note="Sequences longer than the bound and argument values outside the fixed generic inputs are not explored; sharing a BC object with a constructor argument is by design and not reported.",
+   ref="DESIGN.md 4/C15"),
 }
 NOT_YET = {}
 
